@@ -1,17 +1,121 @@
 package main
 
 import (
+	"flag"
 	"fmt"
-	"golang.org/x/tools/go/packages"
-	"golang.org/x/tools/go/ssa"
-	"golang.org/x/tools/go/ssa/ssautil"
+	"os"
+	"sort"
+	"strings"
+	"time"
+
+	"govc/vc"
 )
 
 func main() {
-	cfg := &packages.Config{Mode: packages.LoadAllSyntax, Dir: "/repo", BuildFlags: []string{"-tags=verif"}}
-	pkgs, err := packages.Load(cfg, "./pkg/document", "./pkg/style", "./pkg/markdown")
-	if err != nil { panic(err) }
-	prog, spkgs := ssautil.AllPackages(pkgs, ssa.InstantiateGenerics)
-	prog.Build()
-	for _, p := range spkgs { fmt.Println(p.Pkg.Path(), len(p.Members)) }
+	if len(os.Args) < 2 {
+		fmt.Println("usage: govc verify|check ...")
+		os.Exit(2)
+	}
+	switch os.Args[1] {
+	case "verify":
+		cmdVerify(os.Args[2:])
+	case "check":
+		os.Exit(cmdCheck(os.Args[2:]))
+	default:
+		fmt.Println("unknown command")
+		os.Exit(2)
+	}
 }
+
+func cmdVerify(args []string) {
+	fs := flag.NewFlagSet("verify", flag.ExitOnError)
+	repo := fs.String("repo", "/repo", "repository root")
+	fnPat := fs.String("f", "", "comma-separated function keys (substring match); empty = all contracts")
+	timeout := fs.Int("t", 10, "solver timeout seconds")
+	out := fs.String("out", "/verif/out/smt", "SMT output dir")
+	verbose := fs.Bool("v", false, "verbose")
+	nosolve := fs.Bool("nosolve", false, "generate only")
+	fs.Parse(args)
+	t0 := time.Now()
+	g, err := vc.Load(*repo)
+	if err != nil {
+		fmt.Println("load:", err)
+		os.Exit(2)
+	}
+	if err := g.PreparePures(); err != nil {
+		fmt.Println(err)
+		os.Exit(2)
+	}
+	g.ComputeWriteSets()
+	fmt.Printf("loaded in %.1fs; %d contracts, %d spec functions\n", time.Since(t0).Seconds(), len(g.CS.Funcs), len(g.Pures))
+	var keys []string
+	for _, k := range g.CS.Order {
+		if g.CS.Funcs[k].Inline || g.CS.Funcs[k].NoVerify {
+			continue
+		}
+		if *fnPat == "" {
+			keys = append(keys, k)
+			continue
+		}
+		for _, p := range strings.Split(*fnPat, ",") {
+			if strings.Contains(k, p) {
+				keys = append(keys, k)
+				break
+			}
+		}
+	}
+	var results []*vc.FnResult
+	for _, k := range keys {
+		r := g.GenFunc(k)
+		results = append(results, r)
+		if r.Err != nil {
+			fmt.Printf("%s: ERROR %v\n", k, r.Err)
+		}
+		if *verbose {
+			for _, l := range r.Loops {
+				fmt.Println("  ", l)
+			}
+			for _, w := range r.Warnings {
+				fmt.Println("  warn:", w)
+			}
+		}
+	}
+	header := g.Header()
+	if *nosolve {
+		for _, r := range results {
+			fmt.Printf("%s: %d obligations\n", r.Key, len(r.Obls))
+		}
+		return
+	}
+	srs := vc.SolveAll(g, header, results, *out, 16, *timeout, false)
+	byFn := map[string][]*vc.SolveResult{}
+	for _, s := range srs {
+		byFn[s.Fn] = append(byFn[s.Fn], s)
+	}
+	var fns []string
+	for k := range byFn {
+		fns = append(fns, k)
+	}
+	sort.Strings(fns)
+	total, ok := 0, 0
+	for _, k := range fns {
+		n, good := 0, 0
+		for _, s := range byFn[k] {
+			n++
+			if s.Status == "unsat" {
+				good++
+			}
+		}
+		total += n
+		ok += good
+		fmt.Printf("%s: %d/%d discharged\n", k, good, n)
+		for _, s := range byFn[k] {
+			if s.Status != "unsat" || *verbose {
+				fmt.Printf("   %-8s %-60s %s [%s] %s\n", s.Status, s.Obl.Name, s.Obl.Pos, strings.Join(s.Tried, " "), s.Obl.Desc)
+			}
+		}
+	}
+	fmt.Printf("TOTAL %d/%d discharged in %.1fs\n", ok, total, time.Since(t0).Seconds())
+}
+
+func cmdCheck(args []string) int { return 2 }
